@@ -222,6 +222,18 @@ EncDop(d, v, st, bit) ==
            ELSE LET s1 == [EncItems(d.st, v.v, 1, st, st.eop) EXCEPT !.eop = st.eop] IN
                 IF s1.err \/ st.eop THEN s1
                 ELSE [EncAtomic(d.tdct, d.tv, s1, 0) EXCEPT !.cur = s1.cur]   \* end marker: written, not consumed
+      [] d.k = "mux" ->
+           \* v = (case name, content).  The switch key is the lower limit of the chosen case (0 for the default case);
+           \* the content, if the case has a structure, sits at the multiplexer's BYTE-POSITION.
+           IF v.t # "pair" \/ bit # 0 THEN Err(st)
+           ELSE LET idx == {i \in 1..Len(d.cases) : d.cases[i].n = v.a} IN
+                IF idx = {} /\ ~(d.hasdflt /\ d.dflt.n = v.a) THEN Err(st)
+                ELSE LET c == IF idx # {} THEN d.cases[CHOOSE i \in idx : TRUE] ELSE d.dflt
+                         s0 == [st EXCEPT !.org = st.cur, !.cur = st.cur + d.kbp]
+                         s1 == EncAtomic(d.kdct, IntV(IF idx # {} THEN c.lo ELSE 0), s0, d.kbit)
+                     IN IF s1.err THEN s1
+                        ELSE IF c.st.k = "none" THEN [s1 EXCEPT !.org = st.org]
+                        ELSE [EncDop(c.st, v.b, [s1 EXCEPT !.cur = s0.org + d.bp], 0) EXCEPT !.org = st.org, !.eop = st.eop]
       [] OTHER -> Err(st)
 
 \* a whole request / response
@@ -370,6 +382,18 @@ DecDop(d, ds, bit) ==
            LET r == DecToEnd(d.st, [ds EXCEPT !.org = ds.cur], <<>>) IN R([r.ds EXCEPT !.org = ds.org], r.v)
       [] d.k = "demfield" ->
            LET r == DecToMarker(d, [ds EXCEPT !.org = ds.cur], <<>>) IN R([r.ds EXCEPT !.org = ds.org], r.v)
+      [] d.k = "mux" ->
+           LET d0 == [ds EXCEPT !.org = ds.cur, !.cur = ds.cur + d.kbp]
+               kr == DecAtomic(d.kdct, d0, d.kbit)
+           IN IF kr.ds.err \/ kr.v.t # "int" THEN R(DErr(kr.ds), Missing)
+              ELSE LET hit == {i \in 1..Len(d.cases) : d.cases[i].lo <= kr.v.v /\ kr.v.v <= d.cases[i].hi} IN
+                   IF hit = {} /\ ~d.hasdflt THEN R(DErr(kr.ds), Missing)
+                   ELSE LET c == IF hit # {} THEN d.cases[CHOOSE i \in hit : \A j \in hit : i <= j] ELSE d.dflt
+                            pos == d0.org + d.bp
+                            d1 == [kr.ds EXCEPT !.cur = pos, !.hi = IF pos > kr.ds.hi /\ pos <= NBytes(ds) THEN pos ELSE kr.ds.hi]
+                        IN IF c.st.k = "none" THEN R([d1 EXCEPT !.org = ds.org], [t |-> "pair", a |-> c.n, b |-> [t |-> "dict", v |-> <<>>]])
+                           ELSE LET r == DecDop(c.st, d1, 0) IN
+                                R([r.ds EXCEPT !.org = ds.org], [t |-> "pair", a |-> c.n, b |-> r.v])
       [] OTHER -> R(DErr(ds), Missing)
 
 DecodeMsg(ps, pdu) == DecComposite(ps, DecInit(pdu))
